@@ -41,6 +41,10 @@ pub enum ObsKind {
     Invalid,
     Absent,
     CloseEarly,
+    /// socket file present, nobody listening
+    Stale,
+    /// valid JSON of an instance whose last port uses the peer-delay mechanism
+    ValidP2pLast,
 }
 
 pub const CLIENTS: [Client; 11] = [
@@ -56,18 +60,29 @@ pub const CLIENTS: [Client; 11] = [
     Client::ResetAfterRequest,
     Client::GetNoRead,
 ];
-pub const OBS: [ObsKind; 5] = [ObsKind::Valid, ObsKind::Truncated, ObsKind::Invalid, ObsKind::Absent, ObsKind::CloseEarly];
+pub const OBS: [ObsKind; 7] = [ObsKind::Valid, ObsKind::Truncated, ObsKind::Invalid, ObsKind::Absent, ObsKind::CloseEarly, ObsKind::Stale, ObsKind::ValidP2pLast];
+
+fn p2p_last_spec() -> simcore::harness::NodeSpec {
+    use simcore::harness::*;
+    let mut n = NodeSpec::default();
+    n.ports = vec![PortSpec::default(), PortSpec { p2p: true, ..Default::default() }];
+    n
+}
 
 fn valid_json() -> Vec<u8> {
+    valid_json_of(&simcore::harness::NodeSpec::default())
+}
+
+fn valid_json_of(spec: &simcore::harness::NodeSpec) -> Vec<u8> {
     // a real observable state
     use simcore::harness::*;
-    let o = with_node::<RecFilter, _>(&NodeSpec::default(), |_| RecCfg(Default::default(), false), |node| statime_linux::observer::ObservableInstanceState {
+    let o = with_node::<RecFilter, _>(spec, |_| RecCfg(Default::default(), false), |node| statime_linux::observer::ObservableInstanceState {
         default_ds: node.inst.default_ds(),
         current_ds: node.inst.current_ds(None),
         parent_ds: node.inst.parent_ds(),
         time_properties_ds: node.inst.time_properties_ds(),
         path_trace_ds: node.inst.path_trace_ds(),
-        port_ds: vec![node.port_ref(0).port_ds()],
+        port_ds: (0..node.ports.len()).map(|p| node.port_ref(p).port_ds()).collect(),
     });
     let st = statime_linux::metrics::exporter::ObservableState { program: statime_linux::metrics::exporter::ProgramData::with_uptime(1.0), instance: o };
     serde_json::to_vec(&st).unwrap()
@@ -80,6 +95,8 @@ fn obs_behaviour(k: ObsKind, valid: &[u8]) -> Obs {
         ObsKind::Invalid => Obs::Bytes(b"{\"program\": 12, this is not json".to_vec()),
         ObsKind::Absent => Obs::Absent,
         ObsKind::CloseEarly => Obs::CloseEarly,
+        ObsKind::Stale => Obs::Stale,
+        ObsKind::ValidP2pLast => Obs::Bytes(valid_json_of(&p2p_last_spec())),
     }
 }
 
@@ -205,7 +222,7 @@ impl Harness {
             let answered = act(&self.exporter.addr, *c, deadline / 2)?;
             if let Some(r) = answered {
                 // a well-formed request is itself answered: 200 with data, an error status without
-                let want = if *o == ObsKind::Valid { 200 } else { 500 };
+                let want = if matches!(*o, ObsKind::Valid | ObsKind::ValidP2pLast) { 200 } else { 500 };
                 match r {
                     Ok(resp) if resp.status == want => {}
                     Ok(resp) => return Err(format!("the well-formed request {:?} with observation socket {:?} got status {} instead of {want}", c, o, resp.status)),
@@ -387,7 +404,7 @@ pub fn run(tier: Tier) -> i32 {
     rep.cover("distinct_nontrivial", json!(nontrivial));
     rep.cover("failing_sequences_confirmed_on_fresh_process", json!(failing));
     rep.cover("process_restarts", json!(restarts));
-    rep.cover("rule", json!("all sequences of (client behaviour, observation-socket behaviour) pairs: length 1 full product (11 x 5), plus a well-formed GET split after every byte position and cut off (close, reset) after every number of bytes; length 2 over all client pairs (quick: with a valid observation socket, plus all observation pairs on well-formed clients; thorough: full product) and, thorough, length 3 with at most two non-default elements and length 4 over all client triples and all observation-socket triples; each followed by a well-formed probe with a valid observation socket that must get status 200 within 3 s; non-trivial = sequences containing at least one hostile element"));
+    rep.cover("rule", json!("all sequences of (client behaviour, observation-socket behaviour) pairs: length 1 full product (11 x 7), plus a well-formed GET split after every byte position and cut off (close, reset) after every number of bytes; length 2 over all client pairs (quick: with a valid observation socket, plus all observation pairs on well-formed clients; thorough: full product) and, thorough, length 3 with at most two non-default elements and length 4 over all client triples and all observation-socket triples; each followed by a well-formed probe with a valid observation socket that must get status 200 within 3 s; non-trivial = sequences containing at least one hostile element"));
     rep.cover("samples", json!(seqs.iter().step_by(seqs.len() / 5 + 1).map(|s| json!(s)).collect::<Vec<_>>()));
     rep.cover("exhaustive", json!(true));
     rep.assume("kernel-level timing of FIN/RST delivery is not controlled: each behaviour waits a few milliseconds for its effect to be observable; a failure is reported only if it repeats on a fresh exporter process with five times the deadline (15 s)");
